@@ -67,6 +67,7 @@ deriving DecidableEq, Repr, Inhabited
 inductive Entry
   | data (o : Obj)
   | dict (kv : List (String × PyVal))
+  | raw                                  -- anything else (a bare array, a list, a number): cannot be stored
 deriving DecidableEq, Repr, Inhabited
 
 abbrev Workspace := List (String × Entry)
@@ -132,6 +133,7 @@ def writeDict : List (String × PyVal) → Option (List (String × Stored))
 def writeEntry : Entry → Option Node
   | .data o => (writeObj o).map Node.data
   | .dict kv => (writeDict kv).map Node.dict
+  | .raw => Option.none                  -- save_h5 raises TypeError (repaired: the pinned tree warned and left a file that does not load)
 
 /-- `save_h5`'s body: every workspace entry in order; `none` = some value could not be stored (raise) -/
 def writeAll : Workspace → Option Tree
